@@ -1,7 +1,9 @@
 (* C16 - configuration is saved, duplicated and re-applied losslessly; user settings win.
    Statements only; proofs are in Config/Options_proofs.v. *)
-From CAres.Config Require Import Spec Options_proofs.
+From CAres.Config Require Import Spec Vif Options_proofs Csv_proofs Dup_proofs Witness.
 From CAres.Gen Require Import Consts.
+From Coq Require Import String.
+Local Open Scope string_scope.
 
 (* C16_user_wins: every field ares_sysconfig_apply can write is guarded by the option-mask bit
    recorded when the application set it (with fixes/C16-usevc-user-flags.patch also the flags),
@@ -69,3 +71,58 @@ Theorem C16_save_init_timeout_refuted :
   end.
 Proof. exact save_init_timeout_refuted. Qed.
 Print Assumptions C16_save_init_timeout_refuted.
+
+(* C16_csv_fixpoint.  Full statement: parse_csv (render_csv l) = Ok l and it renders back to the
+   same text, for every server list a channel can hold.  Proved for lists whose servers use one
+   port for UDP and TCP (the plain form  addr:port / [addr]:port%iface ), under the per-address
+   premise addr_good (inet_pton (inet_ntop a) = a and the character shape of inet_ntop output;
+   checked by computation in C16_csv_fixpoint_inhabited, sampled on the real functions by the
+   correspondence run).  Missing: servers with differing UDP/TCP ports (dns:// form): shown on a
+   concrete server in C16_csv_uri_example, compared on every generated case, and REFUTED for
+   link-local servers whose interface name is not alphanumeric (C16_csv_fixpoint_refuted). *)
+Theorem C16_csv_fixpoint_partial : forall nf ifs flags cudp ctcp l txt,
+  Forall (server_ok nf ifs) l ->
+  ForallOrdPairs (fun a b => sconf_match cudp ctcp (entry_of b) (entry_of a) = false) l ->
+  (Z.testbit flags 1 = true -> (List.length l <= 1)%nat) ->
+  get_servers_csv nf l = Ok txt ->
+  set_servers_csv nf ifs flags cudp ctcp [] txt = Ok l /\
+  (forall l', set_servers_csv nf ifs flags cudp ctcp [] txt = Ok l' -> get_servers_csv nf l' = Ok txt).
+Proof. exact csv_fixpoint_plain_pairwise. Qed.
+Print Assumptions C16_csv_fixpoint_partial.
+
+Theorem C16_csv_fixpoint_inhabited :
+  exists txt, get_servers_csv inet_fns ex_servers = Ok txt /\
+              set_servers_csv inet_fns (Some vif) 0 0 0 [] txt = Ok ex_servers.
+Proof. exact csv_fixpoint_example. Qed.
+Print Assumptions C16_csv_fixpoint_inhabited.
+
+Theorem C16_csv_uri_example :
+  get_servers_csv nf [srv_eth0] = Ok (B "dns://[fe80::2%eth0]:5353?tcpport=53") /\
+  set_servers_csv nf (Some vif) 0 0 0 [] (B "dns://[fe80::2%eth0]:5353?tcpport=53") = Ok [srv_eth0].
+Proof. exact witness_uri_roundtrip. Qed.
+Print Assumptions C16_csv_uri_example.
+
+Theorem C16_csv_fixpoint_refuted :
+  set_servers_csv nf (Some vif) 0 5353 0 [] (B "fe80::2%br-lan") = Ok [srv_brlan] /\
+  get_servers_csv nf [srv_brlan] = Err ARES_EBADNAME.
+Proof. exact witness_csv_unrenderable. Qed.
+Print Assumptions C16_csv_fixpoint_refuted.
+
+(* C16_dup.  Full statement: dup c agrees with c on every covered field, on the local device /
+   addresses / socket functions, and on the ordered server list.  Proved for chan_wf channels
+   with plain-form servers; the two side conditions on d0 = init (save c) hold by construction
+   but are not yet derived from the model (see Config/Dup_proofs.v).  Refuted instances:
+   C16_save_init_timeout_refuted (timeout above INT_MAX ms) and C16_csv_fixpoint_refuted. *)
+Theorem C16_dup_partial : forall nf g e src o m d0 d,
+  chan_wf src -> (has (c_optmask src) B_DOMAINS = true -> c_domains src <> []) ->
+  save_options g src = Ok (o, m) -> init_options nf e o m = Ok d0 ->
+  Forall (server_ok nf (c_ifs src)) (c_servers src) ->
+  (forall cu ct, distinct cu ct (c_servers src)) ->
+  Forall no_stray_iface (c_servers d0) ->
+  (Z.testbit (c_flags d0) 1 = true -> (List.length (c_servers src) <= 1)%nat) ->
+  dup nf g e src = Ok d ->
+  covered_same src d /\
+  c_ldev d = c_ldev src /\ c_lip4 d = c_lip4 src /\ c_lip6 d = c_lip6 src /\ c_ifs d = c_ifs src /\
+  (has m B_SERVERS = true -> c_servers d = c_servers src).
+Proof. exact dup_effective_partial. Qed.
+Print Assumptions C16_dup_partial.
